@@ -7,7 +7,8 @@ from ..core import Script, Rng
 from ..stage import LineStage, replay_line
 from . import ref_gen
 
-ARTEFACTS = ["G1-consts", "G2-ref-compress", "G5-vectors"]
+ARTEFACTS = ["G1-consts", "G2-ref-compress", "G5-vectors", "G7-ref"]
+EXTRA_PROPS = [("B3.Props.C15T", "B3/Props/C15T.lean")]   # theorems about the code translated from the sources
 RULE = ("(1) the real reference_impl crate driven through R ops: all three modes, update splits from the size classes {0,1,63,64,65,1023,"
         "1024,1025,k*1024,k*1024+-1,2^j*1024,random <= 200 KiB}, output lengths 0..300 and up to 5000, compared with the model of "
         "reference_impl.rs (run with the compression function generated from it) and the spec; (2) every field of every case of "
